@@ -182,6 +182,29 @@ where
     out.into_inner().unwrap()
 }
 
+/// Like [`par_chunks`], but every chunk is handed to `f` as three consecutive sub-ranges of
+/// varied lengths (a 1..=7 element head, a 1..=11 element tail, the rest in between), so that the
+/// images built from them have many different pixel counts (every residue modulo 2, 3, 4, 8, 16):
+/// per-image code paths such as SIMD/chunked loops with remainders are exercised, not only
+/// 2^k-pixel images.
+pub fn par_chunks_varied<F>(total: u64, chunk: u64, f: F) -> Acc
+where
+    F: Fn(&mut Acc, u64, u64) + Sync,
+{
+    par_chunks(total, chunk, |acc, lo, hi| {
+        let k = (lo / chunk.max(1)).wrapping_mul(0x9E37_79B9) >> 7;
+        let a = 1 + k % 7;
+        let b = 1 + (k / 7) % 11;
+        if hi - lo > a + b + 1 {
+            f(acc, lo, lo + a);
+            f(acc, lo + a, hi - b);
+            f(acc, hi - b, hi);
+        } else {
+            f(acc, lo, hi);
+        }
+    })
+}
+
 /// Final report of one check run in one build configuration.
 pub struct Report {
     pub property: String,
@@ -280,6 +303,7 @@ pub fn px3s(p: [f32; 3]) -> String {
 use std::cell::RefCell;
 thread_local! {
     static LAST_PANIC: RefCell<Option<String>> = const { RefCell::new(None) };
+    static GUARD_DEPTH: std::cell::Cell<u32> = const { std::cell::Cell::new(0) };
 }
 
 pub fn install_panic_hook() {
@@ -292,13 +316,20 @@ pub fn install_panic_hook() {
             "<non-string panic>".to_string()
         };
         let loc = info.location().map(|l| format!("{}:{}", l.file(), l.line())).unwrap_or_default();
+        if GUARD_DEPTH.with(|g| g.get()) == 0 {
+            // a panic of the harness itself (outside any guarded subject call): make it visible
+            eprintln!("HARNESS PANIC: {msg} @ {loc}");
+        }
         LAST_PANIC.with(|p| *p.borrow_mut() = Some(format!("{msg} @ {loc}")));
     }));
 }
 
 /// Run `f`, catching unwinding panics; Err carries "message @ file:line".
 pub fn guarded<R>(f: impl FnOnce() -> R) -> Result<R, String> {
-    match std::panic::catch_unwind(std::panic::AssertUnwindSafe(f)) {
+    GUARD_DEPTH.with(|g| g.set(g.get() + 1));
+    let r = std::panic::catch_unwind(std::panic::AssertUnwindSafe(f));
+    GUARD_DEPTH.with(|g| g.set(g.get() - 1));
+    match r {
         Ok(r) => Ok(r),
         Err(_) => Err(LAST_PANIC.with(|p| p.borrow_mut().take()).unwrap_or_else(|| "<panic>".into())),
     }
